@@ -3,7 +3,7 @@ from ..ir import AnalysisBroken, strip_targs, qmatch
 from ..graph import Graph
 from ..expr import access_path, path_str, held_locks, reaching_defs, norm_cond, origins, leaves, defs_in_node
 from ..charclass import describe, CTYPE
-from .common import strip_casts, short, comparison, member_funcs
+from .common import strip_casts, short, comparison, member_funcs, subtree_through_locals
 from . import c06
 
 UNITS = ['sdk/src/metrics/instrument_metadata_validator.cc', 'sdk/src/metrics/meter.cc', 'sdk/src/trace/tracer.cc',
@@ -458,13 +458,102 @@ def rule_r6(ck, prog, rule='C19.R6'):
         ck.verdict(ok, rule, f, '%s-uses-regex_match' % nm, rm[0] if rm else None, 'whole-string regex_match' if ok else '%s does not decide by a whole-string regex_match (regex_search would accept any name containing a valid one)' % nm)
 
 
+def rule_r7(ck, prog, rule='C19.R7'):
+    """configuration handed to a provider reaches its context: every named parameter of the TracerProvider / MeterProvider /
+    LoggerProvider (and *Context) constructors is used - a constructor overload that drops the scope configurator (or the views,
+    the resource, the sampler) silently falls back to the defaulted argument of the context"""
+    cnt = 0
+    for cls in ('sdk::trace::TracerProvider', 'sdk::logs::LoggerProvider', 'sdk::metrics::MeterProvider',
+                'sdk::trace::TracerContext', 'sdk::logs::LoggerContext', 'sdk::metrics::MeterContext'):
+        try:
+            rec = prog.record(cls)
+        except AnalysisBroken:
+            continue
+        for f in sorted([x for x in prog.funcs.values() if x.cls == rec['qn'] and x.kind == 'ctor' and x.blocks and not x.d.get('implicit')], key=lambda x: x.line):
+            named = [p for p in f.params if p.get('name')]
+            if not named:
+                continue
+            cnt += 1
+            used = {n.get('id') for n in f.nodes if n['k'] == 'ref'}
+            dropped = [p for p in named if p['id'] not in used]
+            site = 'ctor-forwards-all(%s)' % ','.join(p['t'].replace('opentelemetry::', '').replace('std::', '')[:22] for p in f.params)
+            ck.verdict(not dropped, rule, f, site, None, 'all %d parameters are used' % len(named) if not dropped else
+                       '%s ignores its parameter %s: the provider is built with the default instead of what the caller configured' % (short(f), ', '.join(p['name'] for p in dropped)))
+    if cnt < 3:
+        raise AnalysisBroken('provider / context constructors not found in the analysed units')
+    return cnt
+
+
+def rule_r3_descriptor_copy(ck, prog, rule='C19.R3'):
+    """each view shapes its own copy of the instrument descriptor: inside the per-view callbacks of Register*MetricStorage no write
+    goes to a descriptor that is captured from (or a reference to) the enclosing function's descriptor"""
+    cnt = 0
+    for name in ('RegisterSyncMetricStorage', 'RegisterAsyncMetricStorage'):
+        for host in prog.functions('sdk::metrics::Meter::' + name):
+            for lf in [x for x in prog.funcs.values() if x.d.get('lambda') and x.d.get('parent') == host.key]:
+                writes = []
+                for n in lf.nodes:
+                    lhs = n['lhs'] if (n['k'] == 'binop' and n['op'] == '=') else (n.get('obj') if (n['k'] == 'call' and n.get('op') == '=') else None)
+                    if lhs is None:
+                        continue
+                    # the object written: walk from the assigned field down to the variable it belongs to
+                    m = strip_casts(lf, lhs)
+                    for _ in range(8):
+                        if m['k'] == 'member' and m.get('base') is not None:
+                            m = strip_casts(lf, m['base'])
+                        elif m['k'] == 'unop' and m['op'] == '*':
+                            m = strip_casts(lf, m['e'])
+                        else:
+                            break
+                    if m['k'] == 'ref' and 'InstrumentDescriptor' in (m.get('t') or ''):
+                        writes.append((n, m))
+                if not writes:
+                    continue
+                cnt += 1
+                bad = None
+                for (n, r) in writes:
+                    shared = bool(r.get('cap')) or r.get('sk') == 'param'
+                    if r.get('sk') == 'local' and not r.get('cap'):
+                        decls = [d for m in lf.nodes if m['k'] == 'declstmt' for d in m['decls'] if d['id'] == r['id']]
+                        shared = any(d['t'].rstrip().endswith('&') for d in decls)
+                    if shared:
+                        bad = (n, r)
+                ck.verdict(bad is None, rule, lf, 'view-shapes-own-descriptor-copy@%s' % name, bad[0] if bad else writes[0][0],
+                           'the view\'s name / description go into a per-view copy of the descriptor' if bad is None else
+                           'the per-view callback writes the view\'s name / description into %s, which is the enclosing function\'s descriptor (captured or bound by reference): the next matching view starts from the previous view\'s name' % bad[1]['name'])
+    return cnt
+
+
+def rule_r3_filter_reaches_storage(ck, prog, rule='C19.R3'):
+    """the view's attribute filter shapes the stream of every instrument the view matches: the storage built in each per-view
+    callback of Register*MetricStorage receives view.GetAttributesProcessor() (a storage built without it keeps every attribute
+    key of the measurement: the filter of the view is silently ignored for that kind of instrument)"""
+    cnt = 0
+    for name in ('RegisterSyncMetricStorage', 'RegisterAsyncMetricStorage'):
+        for host in prog.functions('sdk::metrics::Meter::' + name):
+            for lf in [x for x in prog.funcs.values() if x.d.get('lambda') and x.d.get('parent') == host.key]:
+                cons = [n for n in lf.nodes if n['k'] == 'construct' and strip_targs(n.get('c', '')).rsplit('::', 1)[-1] in ('SyncMetricStorage', 'AsyncMetricStorage') and
+                        not n.get('copymove')]
+                for n in cons:
+                    cnt += 1
+                    passed = any(lf.nodes[k]['k'] == 'call' and strip_targs(lf.nodes[k].get('c', '')).endswith('View::GetAttributesProcessor')
+                                 for a in n.get('args', []) if a is not None and a >= 0 for k in subtree_through_locals(lf, a))
+                    ck.verdict(passed, rule, lf, 'view-attribute-filter-reaches-storage@%s' % name, n,
+                               'the storage is built with the view\'s attributes processor' if passed else
+                               '%s builds the storage without the view\'s attributes processor: the attribute filter of a view is not applied to this kind of instrument (every attribute key of the observation stays in the series key)' % name)
+    if cnt < 2:
+        raise AnalysisBroken('storage constructions in the per-view callbacks of Register*MetricStorage not found')
+    return cnt
+
+
 def run(ck, prog):
     ck.doc('C19.R1', 'no string_view::data() into a call without the view\'s length', 10)
     ck.doc('C19.R2', 'Create*: enabled and ValidateInstrument gates; descriptor table; tracer/logger enabled gates', 26)
-    ck.doc('C19.R3', 'MatchMeter / MatchInstrument decision tables; FindViews visits all; default view only when none matched; view shapes storage', 6)
+    ck.doc('C19.R3', 'MatchMeter / MatchInstrument decision tables; FindViews visits all; default view only when none matched; view shapes storage; each view shapes its own descriptor copy; the view\'s attribute filter reaches the storage', 10)
     ck.doc('C19.R4', 'scope configurator: first match wins; stored closures own their captures', 3)
     ck.doc('C19.R5', 'GetTracer/GetMeter/GetLogger: locked lookup-then-create on the stored identity', 6)
     ck.doc('C19.R6', 'name/unit patterns equal the documented grammar (parsed normal form, exhaustive byte sets)', 4)
+    ck.doc('C19.R7', 'every named constructor parameter of the providers and their contexts is used (configuration reaches the context)', 6)
     ck.doc('C06.R5', '(shared rule, see C06) registry writes in the per-view callback use a view-dependent key', 2)
     ck.doc('C07.R5', '(shared rule, see C07) the view\'s aggregation config reaches every CreateAggregation call of a storage', 2)
     with ck.canary('C19.R1'):
@@ -477,6 +566,10 @@ def run(ck, prog):
     rule_r4(ck, prog)
     rule_r5(ck, prog)
     rule_r6(ck, prog)
+    rule_r7(ck, prog)
+    if not rule_r3_descriptor_copy(ck, prog):
+        raise AnalysisBroken('no per-view callback of Register*MetricStorage writes a descriptor')
+    rule_r3_filter_reaches_storage(ck, prog)
     c06.rule_r5(ck, prog)
     from . import c07
     c07.rule_r5(ck, prog)
